@@ -50,7 +50,7 @@ def run(tier: str, seed: int) -> int:
     chk.binding_selftest("Judge_C04", obs, verdicts, _corrupt.c04)
     by_id = {o["id"]: _pretty(o) for o in obs}
     chk.absorb(verdicts, by_id, {c["id"]: c for c in cases})
-    nontrivial = len({(tuple(c["payload"]), tuple(c["chain"])) for c in cases if len(c["payload"]) >= 2 or c["payload"][0] > 127})
+    nontrivial = len({(tuple(c["payload"]), tuple(c["chain"])) for c in cases if len(c["payload"]) >= 2 or (c["payload"] and c["payload"][0] > 127)})
     samples = [by_id[o["id"]] for o in obs[:: max(1, len(obs) // 5)]][:5]
     return chk.finish(
         evaluations=len(obs),
